@@ -34,7 +34,8 @@ REQUIRED_BUCKETS = {"quick": ["op:+", "op:*", "op:@", "nested:product-in-sum", "
                               "no-sld-parameter-in-mixture", "magnetic:no-positive-component",
                               "precision:single", "magnetic:bystander-with-direction-angles",
                               "dispersity:more-distributions-than-one-kernel-loops", "component-scale:zero",
-                              "component-scale:negative", "component-scale:tiny", "bare-structure-factor-component"]}
+                              "component-scale:negative", "component-scale:tiny", "bare-structure-factor-component",
+                              "zero-factor-before-a-factor-singular-at-q=0", "product-loaded-again-after-a-sum-containing-it"]}
 REQUIRED_BUCKETS["thorough"] = REQUIRED_BUCKETS["quick"]
 
 SFACTORS = ["hardsphere", "hayter_msa", "squarewell", "stickyhardsphere"]
@@ -94,6 +95,9 @@ def gen_expr(rng, force=None):
         terms[0][0] = spherical[int(rng.integers(len(spherical)))] + "@" + SFACTORS[int(rng.integers(4))]
     if force.get("zero_first") and len(terms[0]) >= 2:
         terms[0][0] = ZERO_LEAVES[int(rng.integers(2))]
+        if force.get("singular"):
+            # the factor after the vanishing one is not finite at q = 0 (power laws): 0 x inf is not a number
+            terms[0][1] = ["power_law", "porod", "guinier_porod"][int(rng.integers(3))]
     if force.get("oriented"):
         om = sas.oriented_models()
         terms[-1][-1] = om[int(rng.integers(len(om)))]
@@ -135,6 +139,8 @@ def gen_cases(tier, seed):
               {"single": True, "shape": ["L", "L"]}, {"mag": "all", "shape": ["L", "L", "L"]},
               {"nosld": True, "shape": ["L", "L"]}, {"nosld": True, "shape": ["LL"]}, {"nosld": True, "shape": ["L", "LL"]},
               {"empty": True, "shape": ["L", "L"]}, {"empty": True, "shape": ["L", "L", "L"]}, {"empty": True, "shape": ["LL", "L"]},
+              {"shape": ["LL"], "zero_first": True, "singular": True}, {"shape": ["LL", "L"], "zero_first": True, "singular": True},
+              {"reloaded": True, "shape": ["LL"]}, {"reloaded": True, "shape": ["LLL"]},
               {"bareS": True, "shape": ["L", "L"]}, {"bareS": True, "shape": ["LL", "L"]}, {"bareS": True, "shape": ["L", "LL"]},
               {"manypd": True, "shape": ["L", "L", "L"]}, {"manypd": True, "shape": ["LL", "L"]}, {"manypd": True, "shape": ["LLL"]}]
     for k in range(n):
@@ -319,6 +325,9 @@ def run_case(case, rec):
     f0, i0, lp0, _ = leaves[0][0]
     if dim == "1d":
         q = sas.q_values(i0, lp0, 5, rng)
+        if (case.get("force") or {}).get("singular"):
+            q[0] = 0.0
+            rec.bucket("zero-factor-before-a-factor-singular-at-q=0")
         qv = [q]
     else:
         qx, qy = sas.q_points_2d(i0, lp0, 5, rng)
@@ -328,6 +337,19 @@ def run_case(case, rec):
     except Exception as exc:
         rec.check("expression_loads", False, {"expr": expr, "exception": repr(exc)})
         return
+    if (case.get("force") or {}).get("reloaded") and len(terms) == 1:
+        # this product has been loaded before, and then a sum that contains it as its second term was loaded (by another
+        # part of the program): the product loaded again is still the product
+        from sasmodels import core as sascore
+        sascore.load_model_info(expr)
+        sascore.load_model_info("sphere*line+" + expr)
+        sascore.load_model_info("ellipsoid+" + expr + "+sphere")
+        _info_cache.pop(expr, None)
+        _info_cache.pop(("model", None, expr), None)
+        for key_ in [k_ for k_ in _info_cache if isinstance(k_, tuple) and k_[-1] == expr]:
+            _info_cache.pop(key_, None)
+        cinfo = load_info(expr)
+        rec.bucket("product-loaded-again-after-a-sum-containing-it")
     layout = combined_names(cinfo, terms)
     scale, bg = float(rng.uniform(0.1, 3.0)), float(rng.uniform(0.0, 1.0))
     cpars = {"scale": scale, "background": bg}
